@@ -37,7 +37,9 @@ type loadSpec struct {
 	N       int         // -1: no length limit
 	Faults  map[int]int // position in Values() order -> store.Fault
 	Exclude []int       // positions excluded through ShouldExclude
-	Timeout bool        // load with a timeout (virtual timer)
+	// ExcludeNone: a ShouldExclude predicate is given and says no to everything (caller code runs inside the fetcher)
+	ExcludeNone bool
+	Timeout     bool // load with a timeout (virtual timer)
 	// CallerDeadline: the caller's own context carries a deadline an hour away (far later than the configured timeout)
 	CallerDeadline bool
 	Perm           int // index of the permutation in which the heads are handed to the loader (0 = the log's own order)
@@ -63,6 +65,9 @@ func (s loadSpec) name(prefix string) string {
 	}
 	if len(s.Exclude) > 0 {
 		parts = append(parts, fmt.Sprintf("excl%v", s.Exclude))
+	}
+	if s.ExcludeNone {
+		parts = append(parts, "predicate-excluding-nothing")
 	}
 	if s.Timeout {
 		parts = append(parts, "timeout")
@@ -193,7 +198,7 @@ func makeLoad(prefix string, ls loadSpec, judge func(s *stored, ls loadSpec, st 
 			to = time.Second
 		}
 		var shouldExclude iface.ExcludeFunc
-		if len(excl) > 0 {
+		if len(excl) > 0 || ls.ExcludeNone {
 			shouldExclude = func(c cid.Cid) bool { return excl[c.String()] }
 		}
 		body := func() {
